@@ -12,7 +12,8 @@ elab "#audit_module " m:ident : command => do
     let last := match n with
       | .str _ s => s
       | _ => ""
-    if last == "eq_def" || last.startsWith "eq_" || last == "induct" || last == "induct_unfolding"
+    let isEqN := last.startsWith "eq_" && (last.drop 3).toString.length > 0 && (last.drop 3).toString.all Char.isDigit
+    if last == "eq_def" || isEqN || last == "induct" || last == "induct_unfolding"
         || last == "fun_cases" || last == "fun_cases_unfolding" || last == "mutual_induct" then continue
     match env.find? n with
     | some (.thmInfo _) =>
